@@ -21,6 +21,17 @@ print(log[-3000:])
 if not ok:
     sys.exit(1)
 allok = True
+# one go invocation compiles and links all harness binaries in parallel (the per-binary
+# builds below then only confirm them from the build cache)
+import subprocess, shutil
+hdir = os.path.join(os.getcwd(), "harness")
+r = subprocess.run([sys.executable, os.path.join("tools", "gen_gomod.py"), hdir], env=dict(m.GOENV, VERIF_REPO=m.REPO))
+bindir = os.path.join(m.BUILD, "bin_all")
+os.makedirs(bindir, exist_ok=True)
+r = subprocess.run(["go", "build", "-tags", "verif", "-o", bindir + os.sep, "./cmd/..."], cwd=hdir, env=m.GOENV)
+if r.returncode == 0:
+    for f in os.listdir(bindir):
+        shutil.copy2(os.path.join(bindir, f), os.path.join(m.BUILD, "kvh_" + f))
 ok, log, _ = m.go_build('DEC')
 print('DEC harness build', 'ok' if ok else 'FAILED')
 allok = allok and ok
